@@ -445,7 +445,7 @@ func Run(c *core.Ctx, pool *gjs.Pool) {
 	}
 
 	// 1. the model: enumerate, check the definitions, emit predictions
-	ncodes := c.Pick(140, 1400)
+	ncodes := c.Pick(90, 1400)
 	if v := os.Getenv("C10_N"); v != "" { // development aid
 		fmt.Sscanf(v, "%d", &ncodes)
 	}
@@ -505,10 +505,10 @@ func Run(c *core.Ctx, pool *gjs.Pool) {
 		}
 	}
 	sel = append(sel, byFam["dag"]...)
-	sel = append(sel, pickN(rng, byFam["inits"], c.Pick(30, 1000))...)
-	sel = append(sel, pickN(rng, link, c.Pick(30, 1000))...)
+	sel = append(sel, pickN(rng, byFam["inits"], c.Pick(24, 1000))...)
+	sel = append(sel, pickN(rng, link, c.Pick(24, 1000))...)
 	sel = append(sel, bad...)
-	sel = append(sel, pickN(rng, byFam["vars"], c.Pick(80, 100000))...)
+	sel = append(sel, pickN(rng, byFam["vars"], c.Pick(60, 100000))...)
 	sel = append(sel, byFam["code"]...)
 	// the shape of DESIGN.md F13 is always present: exported reference to a function,
 	// called from a third package
